@@ -91,7 +91,7 @@ def ssa_check(source: str):
 def cases(draw, cpp=False):
     spec = draw(models.model_specs(names="ident" if cpp else draw(st.sampled_from(["ident", "free"])),
                                    n_state=(2, 4), n_control=(0, 2), n_calib=(0, 2), n_sensors=(1, 2),
-                                   n_readings=(1, 3), depth=2, sensor_depth=2, pool=True, cse=True,
+                                   n_readings=(1, 3), depth=2, sensor_depth=2, pool=True, cse=True, allow_wrap="atan",
                                    innovation=("none",)))
     n = len(spec["state"])
     pts = [{"point": draw(models.points(spec)), "P": draw(ekf.spd(n))} for _ in range(3)]
